@@ -25,6 +25,7 @@ import (
 	"sort"
 	"strconv"
 	"strings"
+	"sync"
 	"time"
 
 	"github.com/practable/relay/internal/file"
@@ -84,6 +85,12 @@ type Case struct {
 	Text   []Chunk  `json:"text,omitempty"`
 	Evs    []Ev     `json:"evs,omitempty"`
 	Want   *Item    `json:"want,omitempty"` // the item that was printed (round trip), when it is canonical
+	// filter histories with a consumer of the log channel that stops reading for a while
+	Stalled    bool `json:"stalled,omitempty"`
+	StallMs    int  `json:"stall_ms,omitempty"`    // how long the consumer does not read
+	Buf        int  `json:"buf,omitempty"`         // capacity of the log channel (relay file uses 10)
+	PauseAfter int  `json:"pause_after,omitempty"` // the consumer pauses after this many lines
+	Cancel     bool `json:"cancel,omitempty"`      // the context is cancelled during the pause (oracle only)
 	// observed on the real code
 	Obs    *Item    `json:"obs,omitempty"`
 	ObsL   []Item   `json:"obs_items,omitempty"`
@@ -336,6 +343,16 @@ var filterStalls int
 // goroutine logged is in w.  The same history goes through the Filter methods (direct); a history
 // with deletes (DeleteAcceptPattern / DeleteDenyPattern have no FilterAction) only there.
 func runFilter(c *Case) (direct []string) {
+	direct = filterPrelude(c)
+	if hasDelete(c.Evs) || filterStalls >= 3 {
+		c.Out = direct
+		return direct
+	}
+	return runFilterLines(c, direct)
+}
+
+// filterPrelude records the match table of the history and replays it on the Filter methods.
+func filterPrelude(c *Case) (direct []string) {
 	c.Match = map[string][]string{}
 	var lines []string
 	for _, e := range c.Evs {
@@ -379,10 +396,10 @@ func runFilter(c *Case) (direct []string) {
 			f.Reset()
 		}
 	}
-	if hasDelete(c.Evs) || filterStalls >= 3 {
-		c.Out = direct
-		return direct
-	}
+	return direct
+}
+
+func runFilterLines(c *Case, direct []string) []string {
 	ctx, cancel := context.WithCancel(context.Background())
 	defer cancel()
 	a := make(chan file.FilterAction)
@@ -418,6 +435,99 @@ func runFilter(c *Case) (direct []string) {
 			return direct
 		}
 	}
+}
+
+// runFilterStalled: the real FilterLines goroutine with a log channel of the capacity `relay file`
+// uses (or smaller) and a consumer that reads PauseAfter lines, then does not read for StallMs,
+// then reads on - while more accepted lines than the channel holds are fed, interleaved with
+// filter commands.  Nothing here depends on how long anything takes: the feeder simply blocks
+// while FilterLines blocks, and the history is complete when the closing no-op action has been
+// taken (everything before it has then been handled, its line handed to the channel).  With
+// Cancel the context is cancelled during the pause; what arrives is then judged by the oracle
+// alone (a prefix of the permitted lines), no Coq case is made of it.
+func runFilterStalled(c *Case) (direct []string) {
+	direct = filterPrelude(c)
+	stall := time.Duration(c.StallMs) * time.Millisecond
+	patience := stall + 20*time.Second
+	ctx, cancel := context.WithCancel(context.Background())
+	defer cancel()
+	a := make(chan file.FilterAction)
+	in := make(chan file.Line)
+	w := make(chan file.Line, c.Buf)
+	go file.FilterLines(ctx, a, in, w)
+	var got []string
+	pausing := make(chan struct{})
+	stop := make(chan struct{})
+	done := make(chan struct{})
+	go func() { // the consumer of the log channel
+		defer close(done)
+		paused := false
+		for {
+			if !paused && len(got) >= c.PauseAfter {
+				paused = true
+				close(pausing)
+				time.Sleep(stall)
+			}
+			select {
+			case l := <-w:
+				got = append(got, l.Content)
+			case <-stop:
+				for {
+					select {
+					case l := <-w:
+						got = append(got, l.Content)
+					default:
+						return
+					}
+				}
+			}
+		}
+	}()
+	finish := func(marker string) []string {
+		close(stop)
+		<-done
+		c.Out = append([]string{}, got...)
+		if marker != "" {
+			c.Out = append(c.Out, marker)
+		}
+		return direct
+	}
+	cancelAt := -1
+	if c.Cancel {
+		cancelAt = len(c.Evs) / 2
+	}
+	for k, e := range append(append([]Ev{}, c.Evs...), Ev{A: "unknown"}) {
+		if k == cancelAt {
+			select {
+			case <-pausing:
+			case <-time.After(patience):
+			}
+			cancel()
+			patience = 1500 * time.Millisecond
+		}
+		var sent bool
+		if e.A == "" {
+			select {
+			case in <- file.Line{Content: e.S}:
+				sent = true
+			case <-time.After(patience):
+			}
+		} else {
+			select {
+			case a <- mkAction(e):
+				sent = true
+			case <-time.After(patience):
+			}
+		}
+		if !sent {
+			if c.Cancel && k >= cancelAt {
+				time.Sleep(stall) // let the consumer resume and collect what was handed over
+				return finish("")
+			}
+			return finish(fmt.Sprintf("\x00<<c20: FilterLines took no event for %s (event %d)>>", patience, k))
+		}
+	}
+	return finish("")
 }
 
 // ---------------------------------------------------------------- Coq emission
@@ -626,6 +736,40 @@ func main() {
 		}
 	}
 
+	// filter histories with a stalled consumer run beside everything else (they mostly wait)
+	var stalled []*Case
+	var stalledDirect [][]string
+	stalledDone := make(chan struct{})
+	if a.Replay == "" {
+		stalls := []int{0, 500, 2500, 3500}
+		if a.Tier == "thorough" {
+			stalls = append(stalls, 10000, 35000, 3000, 5000)
+		}
+		for k, ms := range stalls {
+			r := rng.Fork()
+			buf := []int{10, 10, 3, 10, 10, 10, 0, 1}[k%8]
+			pause := r.Intn(4)
+			stalled = append(stalled, &Case{Kind: "filter", Stream: "filter-stalled", Stalled: true, StallMs: ms, Buf: buf,
+				PauseAfter: pause, Evs: genFilterStall(r, buf+pause)})
+		}
+		r := rng.Fork()
+		stalled = append(stalled, &Case{Kind: "filter", Stream: "filter-stalled", Stalled: true, StallMs: 700, Buf: 10, PauseAfter: 2,
+			Cancel: true, Evs: genFilterStall(r, 12)})
+	}
+	stalledDirect = make([][]string, len(stalled))
+	go func() {
+		var wg sync.WaitGroup
+		for k := range stalled {
+			wg.Add(1)
+			go func(k int) {
+				defer wg.Done()
+				stalledDirect[k] = runFilterStalled(stalled[k])
+			}(k)
+		}
+		wg.Wait()
+		close(stalledDone)
+	}()
+
 	coq := make([]string, len(cases))
 	for i := range cases {
 		c := &cases[i]
@@ -640,8 +784,20 @@ func main() {
 			errs, note := runText(c)
 			oracleText(c, errs, note, i, res)
 		case "filter":
-			direct := runFilter(c)
-			oracleFilter(c, direct, i, res)
+			var direct []string
+			if c.Stalled {
+				direct = runFilterStalled(c) // a replay
+				if c.Cancel {
+					oracleCancelled(c, direct, i, res)
+					c.Evs, c.Out, c.Match = nil, []string{}, nil // judged by the oracle alone
+				} else {
+					oracleFilter(c, direct, i, res)
+				}
+				res.Count("filter-stalled")
+			} else {
+				direct = runFilter(c)
+				oracleFilter(c, direct, i, res)
+			}
 			res.Count("filter")
 			if hasDelete(c.Evs) {
 				res.Count("filter:with-deletes(Filter methods only)")
@@ -653,6 +809,27 @@ func main() {
 			os.Exit(2)
 		}
 		coq[i] = c.coq()
+		res.Cases = append(res.Cases, *c)
+	}
+	<-stalledDone
+	for k, c := range stalled {
+		i := len(cases)
+		res.Count("filter-stalled")
+		res.Count(fmt.Sprintf("filter-stalled:consumer-paused-%dms-buffer-%d", c.StallMs, c.Buf))
+		res.CountN("filter-stalled:lines-logged", len(c.Out))
+		if c.Cancel {
+			res.Count("filter-stalled:context-cancelled-during-the-pause(oracle only)")
+			oracleCancelled(c, stalledDirect[k], i, res)
+			kept := *c
+			res.Cases = append(res.Cases, kept)
+			c.Evs, c.Out, c.Match = nil, []string{}, nil
+			cases = append(cases, *c)
+			coq = append(coq, c.coq())
+			continue
+		}
+		oracleFilter(c, stalledDirect[k], i, res)
+		cases = append(cases, *c)
+		coq = append(coq, c.coq())
 		res.Cases = append(res.Cases, *c)
 	}
 	if len(cases) > 0 {
